@@ -391,6 +391,16 @@ def gen_fixed(rng, book, templates, res):
                 s = "+".join(parts)
                 if len(snames) > 1:
                     res.count("line:multi-strand-structure")
+                    if mode == "ok" and rng.random() < 0.12 and all(len(p_) >= 1 for p_ in parts):
+                        # right number of parts, right total number of letters, one `+` moved by a letter or two: every part has
+                        # the wrong length for its strand (the oracle replays the string part by part and expects a length error)
+                        k = rng.randrange(len(parts) - 1)
+                        whole = parts[k] + parts[k + 1]
+                        cut = len(parts[k]) + rng.choice([-2, -1, 1, 2])
+                        if 0 <= cut <= len(whole) and cut != len(parts[k]):
+                            parts2 = parts[:k] + [whole[:cut], whole[cut:]] + parts[k + 2:]
+                            s = "+".join(parts2)
+                            res.count("line:structure-misplaced-plus")
             elif kind == "signal":
                 regions = book.signals[name]
                 shadow = Expect(book, {})
